@@ -38,6 +38,50 @@ func init() {
 }`
 }
 
+func init() {
+	// case members that reach their choice through uses, nested choices and augments
+	model.Schemas["choiceaug"] = `module choiceaug { namespace "urn:ca"; prefix ca; revision 0;
+  grouping g { leaf g1 { type string; } container gc { leaf x { type string; } } list gl { key k; leaf k { type string; } } }
+  grouping g2 { leaf h1 { type string; } container hc { leaf x { type string; } } }
+  leaf o { type string; }
+  choice h {
+    case a { leaf a1 { type string; } }
+    case u { uses g; }
+    case n { choice in { case n1 { container nd { leaf x { type string; } } } case n2 { list nl { key k; leaf k { type string; } } leaf n2l { type string; } } } }
+  }
+  augment "/h" { case aug { leaf au1 { type string; } container auc { leaf x { type string; } } } }
+  augment "/h" { leaf sh { type string; } }
+  augment "/h" { uses g2; }
+  augment "/h/a" { container ac { leaf x { type string; } } }
+  container w { leaf keep { type string; } choice g { case p { leaf p1 { type string; } } } }
+  augment "/w/g" { case q { leaf q1 { type string; } list ql { key k; leaf k { type string; } } } }
+}`
+}
+
+var c09AugAlphabet = []c09Op{
+	{"plain-case/leaf", `{"a1":"a"}`},
+	{"augmented-into-case/container", `{"ac":{"x":"a"}}`},
+	{"uses-in-case/leaf", `{"g1":"a"}`},
+	{"uses-in-case/container", `{"gc":{"x":"a"}}`},
+	{"uses-in-case/list", `{"gl":[{"k":"a"}]}`},
+	{"uses-in-case/all", `{"g1":"b","gc":{"x":"b"},"gl":[{"k":"b"}]}`},
+	{"nested-choice/container", `{"nd":{"x":"a"}}`},
+	{"nested-choice/list", `{"nl":[{"k":"a"}]}`},
+	{"nested-choice/leaf", `{"n2l":"a"}`},
+	{"augmented-case/leaf", `{"au1":"a"}`},
+	{"augmented-case/container", `{"auc":{"x":"a"}}`},
+	{"augmented-shorthand/leaf", `{"sh":"a"}`},
+	{"augmented-uses/leaf", `{"h1":"a"}`},
+	{"augmented-uses/container", `{"hc":{"x":"a"}}`},
+	{"outside", `{"o":"a"}`},
+	{"in-container/plain-case", `{"w":{"p1":"a"}}`},
+	{"in-container/augmented-case/leaf", `{"w":{"q1":"a"}}`},
+	{"in-container/augmented-case/list", `{"w":{"ql":[{"k":"a"}]}}`},
+	{"outside", `{"w":{"keep":"a"}}`},
+}
+
+var c09Alphabets = map[string][]c09Op{"": c09Alphabet, "choicewhen": c09WhenAlphabet, "choiceaug": c09AugAlphabet}
+
 var c09WhenAlphabet = []c09Op{
 	{"when-case/switch-with-guard", `{"kind":"a","a1":"x"}`},
 	{"when-case/switch-with-guard", `{"kind":"b","b1":"y"}`},
@@ -102,6 +146,7 @@ func (p *c09) Cases(tier string, emit func(interface{})) {
 	for _, st := range append(append([]string{}, store.Impls...), "node-struct", "node-structmap") {
 		for _, src := range []string{"json", "ref", "xml"} {
 			emit(c09Case{Part: "bfs", Store: st, Source: src, Depth: c09Depth(tier)})
+			emit(c09Case{Schema: "choiceaug", Part: "bfs", Store: st, Source: src, Depth: c09Depth(tier)})
 		}
 	}
 }
@@ -113,7 +158,7 @@ func exclusive(defs []meta.Definition, t *model.Tree, path string) string {
 		switch x := d.(type) {
 		case *meta.Choice:
 			n := 0
-			for _, id := range x.CaseIdents() {
+			for _, id := range model.CaseIds(x) {
 				cs := x.Cases()[id]
 				if model.HasAny(cs.DataDefinitions(), t) {
 					n++
@@ -217,7 +262,7 @@ func (p *c09) Run(raw json.RawMessage) eng.Result {
 	schema := "choice"
 	alphabet := c09Alphabet
 	if c.Schema != "" {
-		schema, alphabet = c.Schema, c09WhenAlphabet
+		schema, alphabet = c.Schema, c09Alphabets[c.Schema]
 	}
 	m := model.SharedSchema(schema)
 	newInst := func() *c09Inst { return &c09Inst{env: newEnv(schema, c.Store)} }
